@@ -18,6 +18,20 @@ EXPLAIN = ("Log, Exp(Log(X)), Log(Exp(x)), Log(-q), Log(Inv X) run under symx wi
 EPS = rat(torch.finfo(DT).eps)
 
 
+def no_downcast(H, ctx, name, key, g):
+    """float64 data must not be pushed through a lower-precision cast inside the library (invisible over the reals; recorded by the engine)"""
+    dc = getattr(ctx, 'downcasts', [])
+
+    def replay(model):
+        # float64 round trip on generic elements: a single-precision detour shows as a 1e-7 relative deviation
+        torch.manual_seed(3)
+        X = RANDN[g](8, dtype=DT)
+        Y = X.Log().Exp()
+        e = ((X.matrix() - Y.matrix()).abs().amax(dim=(-1, -2)) / X.matrix().abs().amax(dim=(-1, -2))).max().item()
+        return e > 1e-10, 'float64 Exp(Log X) deviates from X by %.3g (relative): precision-reducing cast %s' % (e, dc[:2])
+    H.prove(name + '/no-precision-reducing-cast', [], z3.BoolVal(not dc), replay=replay, key=key)
+
+
 def case_log_basic(H, g):
     """|rotation part of Log X| <= pi ; Log(-q) == Log(q) ; Log(Inv X) == -Log X   (generic regime: |v|, |w| > eps)"""
     name = 'C02/%s/Log' % g
@@ -52,8 +66,9 @@ def case_log_basic(H, g):
         bad = ang > 3.14159265358979 + 1e-9 or not torch.isfinite(L).all()
         msg = '|phi| = %.6g' % ang
         if w > 1e-3:
-            e1 = (L - Ln).abs().max().item()
-            e2 = (L + Li).abs().max().item()
+            sc = 1 + L.abs().max().item()          # relative to the magnitude of Log(X) (translations are unbounded)
+            e1 = (L - Ln).abs().max().item() / sc
+            e2 = (L + Li).abs().max().item() / sc
             bad = bad or e1 > 1e-7 or e2 > 1e-7
             msg += ', |Log(q)-Log(-q)| = %.3g, |Log(X)+Log(Inv X)| = %.3g' % (e1, e2)
         return bad, msg + ' at X=%s' % xv.tolist()
@@ -61,6 +76,7 @@ def case_log_basic(H, g):
     for ctx, (L, Ln, Li, pL, xs, m, Lt) in run_paths(H, name, prog, max_paths=32, max_decisions=30, track_poison=True, ctx_opts={'split_bool_casts': True}):
         selftest(H, ctx, m, [(L, Lt.tensor())], name)
         pn = H.paths
+        no_downcast(H, ctx, '%s/path%d' % (name, pn), 'C02/%s/Log' % g, g)
         hyp = H.hyps_of(ctx)
         t, q, s = parts(g, xs)
         ph = L[pi_:pi_ + 3]
@@ -98,6 +114,31 @@ def case_log_basic(H, g):
             H.reach('%s/path%d/reach' % (name, pn), hyp)
 
 
+def case_log_light(H, g):
+    """Log alone (quick tier for Sim3, whose full case is thorough-only): principal value and no precision-reducing cast"""
+    name = 'C02/%s/Log(light)' % g
+    pi_ = {'SO3': 0, 'SE3': 3, 'RxSO3': 0, 'Sim3': 3}[g]
+
+    def prog(m):
+        X, xs = sym_group(m, g, 'x', 90)
+        t, q, s = parts(g, xs)
+        if s is not None:
+            m.ctx.assume += [s >= z3.RealVal('1/3000'), s <= 3000]
+        return m.full_terms(X.Log().tensor()), xs
+
+    def replay(model):
+        xv = normalize_group(g, tensor_from_env(['x%d' % i for i in range(GDIM[g])], model))
+        L = pp.LieTensor(xv, ltype=GTYPE[g]).Log().tensor()
+        ang = L[pi_:pi_ + 3].norm().item()
+        return ang > 3.14159265358979 + 1e-9 or not torch.isfinite(L).all(), '|phi| = %.6g at X=%s' % (ang, xv.tolist())
+
+    for ctx, (L, xs) in run_paths(H, name, prog, max_paths=32, max_decisions=40, ctx_opts={'split_bool_casts': True}):
+        pn = H.paths
+        no_downcast(H, ctx, '%s/path%d' % (name, pn), 'C02/%s/Log' % g, g)
+        ph = L[pi_:pi_ + 3]
+        H.prove('%s/path%d/|phi|<=pi' % (name, pn), H.hyps_of(ctx), T.dot(ph, ph) <= PI * PI, replay=replay, key='C02/%s/Log' % g, timeout=15)
+
+
 def case_exp_log(H, g):
     """Exp(Log X) is the same transformation as X"""
     name = 'C02/%s/Exp(Log(X))' % g
@@ -116,11 +157,24 @@ def case_exp_log(H, g):
         X = pp.LieTensor(xv, ltype=GTYPE[g])
         Y = X.Log().Exp()
         e = (X.matrix() - Y.matrix()).abs().max().item() / (1 + X.matrix().abs().max().item())
-        return e > 1e-6, 'matrix(Exp(Log X)) differs from matrix(X) by %.3g (relative) at X=%s' % (e, xv.tolist())
+        # "with the accuracy stated in C01": rotation / scale blocks to a small multiple of eps (64 eps allowed here); the translation
+        # block to 100 sqrt(eps)
+        Mx, My = X.matrix(), Y.matrix()
+        sz = 3
+        eR = (Mx[:sz, :sz] - My[:sz, :sz]).abs().max().item() / Mx[:sz, :sz].abs().max().item()
+        bad = eR > 64 * 2.3e-16
+        msg = 'rotation/scale block of Exp(Log X) differs from X by %.3g (relative; allowed 64 eps)' % eR
+        if Mx.shape[0] == 4:
+            tn = Mx[:3, 3].norm().item()
+            eT = (Mx[:3, 3] - My[:3, 3]).norm().item() / tn if tn > 0 else 0.0
+            if eT > 100 * 1.5e-8:
+                bad, msg = True, 'translation of Exp(Log X) differs from X by %.3g (relative; allowed 100 sqrt(eps))' % eT
+        return bad, '%s at X=%s' % (msg, xv.tolist())
 
     for ctx, (y, xs, m, Y) in run_paths(H, name, prog, max_paths=48, max_decisions=40, ctx_opts={'split_bool_casts': True}):
         selftest(H, ctx, m, [(y, Y.tensor())], name)
         pn = H.paths
+        no_downcast(H, ctx, '%s/path%d' % (name, pn), 'C02/%s/Exp(Log)' % g, g)
         hyp = H.hyps_of(ctx)
         t, q, s = parts(g, xs)
         ty, qy, sy = parts(g, y)
@@ -234,6 +288,12 @@ def run(H):
         except Exception as e:
             import traceback; traceback.print_exc()
             H.engine_error('log/' + g, e)
+    if H.quick and (not only or only in 'Sim3'):
+        try:
+            case_log_light(H, 'Sim3')
+        except Exception as e:
+            import traceback; traceback.print_exc()
+            H.engine_error('log-light/Sim3', e)
     for g in groups_deep:
         if only and only not in g:
             continue
